@@ -393,3 +393,107 @@ Definition toy_ext : externals := {|
   ext_uses_param := fun ps t => existsb (fun p => str_eqb p t) ps;
   ext_strip_ref := fun t => match t with 38 :: r => r | _ => t end
 |}.
+
+(* ================================================================== second level: bucket tables, processes, positions *)
+
+(** A closer model of std's (hashbrown) table for the operations the expanders use - `HashMap::default()`,
+    `entry(k).or_insert_with(Vec::new).push(v)`, `insert`, `extend` / `collect`, `iter` / `into_iter` / `drain`:
+    a bucket count that only grows (0 -> 4 -> 8 -> ..., load factor 7/8) plus the entries in insertion order;
+    iteration visits the entries in the order of their BUCKET = hash(seed', key) mod bucket count (ties: insertion
+    order).  `drain()` / `clear()` empty the table but KEEP the bucket count - which is how a table that survives an
+    expansion (thread_local / static scratch) carries the history into the next one. *)
+Record table := { t_cap : N; t_ents : hmap (list str) }.
+
+Definition t_new : table := {| t_cap := 0; t_ents := [] |}.     (* HashMap::default(): no allocation *)
+
+Fixpoint grow_fuel (fuel : nat) (cap len : N) : N :=
+  match fuel with
+  | O => cap
+  | S k => if len * 8 <=? cap * 7 then cap else grow_fuel k (if cap =? 0 then 4 else cap * 2) len
+  end.
+
+(** bucket count after the table has grown to hold [len] entries (never shrinks) *)
+Definition t_fit (cap : N) (len : nat) : N := grow_fuel (S (S len)) cap (N.of_nat len).
+
+Definition t_entry_push (k : str) (v : str) (t : table) : table :=
+  let e := hm_entry_push k v (t_ents t) in {| t_cap := t_fit (t_cap t) (List.length e); t_ents := e |}.
+
+Definition t_insert (k : str) (t : table) : table :=
+  let e := hs_insert k (t_ents t) in {| t_cap := t_fit (t_cap t) (List.length e); t_ents := e |}.
+
+Definition t_extend (ks : list str) (t : table) : table := fold_left (fun t k => t_insert k t) ks t.
+
+Definition bucket (hash : seed -> str -> N) (sd : seed) (cap : N) (k : str) : N :=
+  if cap =? 0 then 0 else hash sd k mod cap.
+
+Definition t_iter (hash : seed -> str -> N) (sd : seed) (t : table) : list (str * list str) :=
+  sort_by (fun e => bucket hash sd (t_cap t) (fst e)) (t_ents t).
+
+(** `drain()`: the entries in iteration order, and the emptied table with its bucket count retained *)
+Definition t_drain (hash : seed -> str -> N) (sd : seed) (t : table) : list (str * list str) * table :=
+  (t_iter hash sd t, {| t_cap := t_cap t; t_ents := [] |}).
+
+(** an (emptied) table filled with the entries of an expansion: the bucket count it ends with depends on the one it
+    started with (growth is monotone in the number of entries, so filling entry by entry ends at the same count) *)
+Definition t_fill (start : table) (g : hmap (list str)) : table :=
+  {| t_cap := t_fit (t_cap start) (List.length g); t_ents := g |}.
+
+(** the table an expander starts from: `HashMap::default()` / `HashSet::default()` / `.collect()` make a FRESH one
+    (try_into.rs:30, from_str.rs:58, mul_like.rs:39, mul_assign_like.rs:38, error.rs:129) - unless the macro keeps
+    state across expansions, in which case the scratch table left by the history is what it gets (conservative) *)
+Definition start_table (fs : facts) (scratch : table) : table :=
+  if leaks_history fs then {| t_cap := t_cap scratch; t_ents := [] |} else t_new.
+
+Definition expand_model_b (E : externals) (fs : facts) (s : seed) (h : history) (scratch : table) (x : input)
+  : list (str * str) :=
+  flat_map (render_group x)
+           (t_iter (ext_hash E) (build_hasher (hasher_at fs (fst x)) s) (t_fill (start_table fs scratch) (groups_of E x)))
+  ++ seed_leak fs (fst x) s
+  ++ observe_history fs h.
+
+Definition expand_pure_b (E : externals) (x : input) : list (str * str) :=
+  flat_map (render_group x) (t_iter (ext_hash E) fixed_seed (t_fill t_new (groups_of E x))).
+
+(** ---- a compiler process: one seed, one thread of expansions; each expansion sees what the earlier ones left
+    (the names / positions of the items expanded so far, the scratch table) *)
+Record pstate := { ps_history : history; ps_scratch : table }.
+
+Definition ps_init : pstate := {| ps_history := []; ps_scratch := t_new |}.
+
+(** an item as the compiler hands it to the macro: the derive input AND where it sits (byte position of its tokens) *)
+Definition located := (N * input)%type.
+
+Definition trace_of (p : located) : str := [fst p] ++ it_name (snd (snd p)).
+
+Definition step (E : externals) (fs : facts) (s : seed) (st : pstate) (p : located) : list (str * str) * pstate :=
+  let x := snd p in
+  (* the position is part of what a span-reading / Debug-formatting macro would see: it travels in the history *)
+  let out := expand_model_b E fs s (trace_of p :: ps_history st) (ps_scratch st) x in
+  (out, {| ps_history := trace_of p :: ps_history st;
+           ps_scratch := snd (t_drain (ext_hash E) s (t_fill (start_table fs (ps_scratch st)) (groups_of E x))) |}).
+
+Fixpoint run_process (E : externals) (fs : facts) (s : seed) (st : pstate) (ps : list located)
+  : list (list (str * str)) :=
+  match ps with
+  | [] => []
+  | p :: r => let '(o, st') := step E fs s st p in o :: run_process E fs s st' r
+  end.
+
+(** ---- fact values that differ from a good one in exactly one respect (for the sensitivity lemmas) *)
+Open Scope string_scope.
+Definition std_alias (k : coll_kind) : alias_def :=
+  {| al_kind := k; al_std_base := true; al_state := StUnitStruct; al_hasher := HtDefaultHasher; al_ctor := CtDefault |}.
+Definition base_mention : mention :=
+  {| m_file := "try_into.rs"; m_line := 30; m_kind := KHashMap; m_origin := OAlias; m_iterated := true |}.
+Definition base_facts : facts :=
+  {| f_aliases := [std_alias KHashMap; std_alias KHashSet]; f_mentions := [base_mention]; f_state := [] |}.
+Definition facts_with_state (k : state_kind) : facts :=
+  {| f_aliases := f_aliases base_facts; f_mentions := f_mentions base_facts;
+     f_state := [{| s_file := "x.rs"; s_line := 1; s_kind := k; s_in_template := false |}] |}.
+Definition facts_with_origin (o : origin) : facts :=
+  {| f_aliases := f_aliases base_facts;
+     f_mentions := [{| m_file := "try_into.rs"; m_line := 30; m_kind := KHashMap; m_origin := o; m_iterated := true |}];
+     f_state := [] |}.
+Definition facts_with_alias (a : alias_def) : facts :=
+  {| f_aliases := [a; std_alias KHashSet]; f_mentions := [base_mention]; f_state := [] |}.
+Open Scope N_scope.
